@@ -68,7 +68,9 @@ def run_bounded(prop, tier, seed):
                            text=True, timeout=3000 if tier == 'thorough' else 900,
                            env=dict(os.environ, MOFUN_REPO=REPO, PYTHONPATH=REPO))
     except subprocess.TimeoutExpired:
-        return {'error': 'bounded stage timed out', 'wall_s': time.time() - t0}
+        # not finishing is not a verdict about the code and not a defect of the checker: UNDECIDED (e.g. a changed replication factor that makes
+        # the structures thousands of times larger)
+        return {'timeout': 'bounded stage did not finish within %d s' % (3000 if tier == 'thorough' else 900), 'wall_s': time.time() - t0}
     lines = [l for l in p.stdout.splitlines() if l.startswith('BOUNDED-JSON ')]
     if not lines:
         return {'error': 'bounded stage produced no result (exit %d): %s' % (p.returncode, (p.stdout + p.stderr)[-2000:]),
@@ -196,6 +198,8 @@ def main(argv):
     # PYVC_SKIP_BOUNDED=1 is for the self-tests only (shows what the deductive stage alone decides); registered commands never set it
     bounded = None if os.environ.get('PYVC_SKIP_BOUNDED') else run_bounded(prop, tier, seed)
     if bounded is not None:
+        if bounded.get('timeout'):
+            undecided.append(('bounded stage', bounded['timeout']))
         if bounded.get('error'):
             checker_errors.append('bounded stage: ' + bounded['error'])
         for f in bounded.get('failures', []):
